@@ -774,6 +774,14 @@ Qed.
 Theorem encode_string_old_refuted : exists bits, Forall (fun b => b <= 32) bits /\ lenN bits = 1 /\ 4 * 1 < snd (tmp_encode bits).
 Proof. exists [32]. split; [repeat constructor; lia|]. split; [reflexivity|]. vm_compute. reflexivity. Qed.
 
+(* RPHTFC appends the two bytes its header decoder reads ahead after `while ((bytesStrings + 2) > reservedStrings) reserved = Reallocate`:
+   the doubling loop [cap_grow] of CapacityDefs establishes the bound, and the two writes are below it *)
+Theorem tail2_ok cursor reserved : 1 <= reserved ->
+  let r := CapacityDefs.cap_grow (cursor + 2) reserved in cursor < r /\ cursor + 1 < r.
+Proof.
+  intros Hr r. destruct (CapacityProofs.cap_grow_spec (cursor + 2) reserved Hr) as [H _]. fold r in H. lia.
+Qed.
+
 (* maxcomplength: the constructors keep the maximum of the encoded header sizes; decoding reads `maxcomplength + 4` bytes *)
 Lemma fold_max_ge_init : forall (l : list N) m, m <= fold_left N.max l m.
 Proof. induction l as [|y l IH]; intros m; cbn [fold_left]; [lia|]. specialize (IH (N.max m y)). lia. Qed.
